@@ -156,10 +156,50 @@ def check_case(part: Part, gen: msggen.Gen, case: dict, ser, de_eager, de_lazy, 
             for v in sub.viol.values():
                 part.violation("decode-independent", v["site"] + sfx, witness, v["detail"])
             continue
-        compare_message(part, dec, case, expected, mode, witness)
+        ok = compare_message(part, dec, case, expected, mode, witness)
+        if ok and not pre and mode == "eager":
+            _check_edit_then_decode(part, gen, case, expected, data, dec, de, witness)
     part.outcome((len(data), data[:12]))
     nt = (name, case["flags"] & 0x90, tuple((b, len(r)) for b, r in case["blocks"]), case.get("tag"))
     part.mark_nontrivial(nt)
+
+
+def _check_edit_then_decode(part: Part, gen, case: dict, expected, data: bytes, dec, de, witness):
+    """Decoded coordinate values are mutable: no two variables of one decoded message may share one, and editing a decoded
+    message in place must not change what the next decode of the same datagram returns (no sharing between results)."""
+    coords = []
+    for bl in dec.blocks.values():
+        for b in bl:
+            for k, v in b.vars.items():
+                if isinstance(v, TupleCoord):
+                    coords.append((b.name, k, v))
+    if not coords:
+        return
+    part.count("edit_then_decode_cases")
+    name = case["name"]
+    seen = {}
+    for bn, k, v in coords:
+        if id(v) in seen:
+            part.violation("decode-independent", f"{name}:decoded-values-aliased", dict(witness, kind="case"),
+                           f"{bn}.{k} and {seen[id(v)]} of one decoded message are the same mutable {type(v).__name__} object")
+        seen[id(v)] = f"{bn}.{k}"
+    for _bn, _k, v in coords:
+        try:
+            first = list(v)[0]
+            setattr(v, type(v)._fields[0] if hasattr(type(v), "_fields") else "X", (first if first == first else 0.0) + 17.0)
+        except Exception:
+            pass
+    try:
+        again = de.deserialize(data)
+        again.blocks
+    except Exception as e:
+        part.violation("decode-independent", f"{name}:deserialize:after-editing-result", witness, f"raised {e!r}")
+        return
+    sub = Part()
+    compare_message(sub, again, case, expected, "eager", witness)
+    for v in sub.viol.values():
+        part.violation("decode-independent", v["site"] + ":after-editing-earlier-result", witness,
+                       "a decoded message was edited in place, then the same datagram was decoded again: " + v["detail"])
 
 
 def _site_of_offset(gen, case, off) -> str:
